@@ -123,6 +123,9 @@ func main() {
 		}
 		fmt.Print(buf.String())
 	}
+	if d := inlinedOverlayCache.dir; d != "" && os.Getenv("FXCHECK_INLINE_DEBUG") == "" {
+		os.RemoveAll(d)
+	}
 	os.Exit(exit)
 }
 
